@@ -10,7 +10,10 @@
 //!   * `persist` dot-separated list of persistent peers (`config.connect`), `-` = none
 //!   * `have`    dot-separated list of refs-announcement variants whose tip is already in the refs
 //!               cache (`refs_status_of` then wants nothing), `-` = none
-//!   * `seed`    seed of the service RNG (only the session shuffle in `dequeue_fetches` uses it)
+//!   * `seed`    seed of the service RNG (the session shuffle in `dequeue_fetches` and the seeds shuffle use it)
+//!   * optional 7th field, flags: `m` = the repositories are NOT in storage (inventory announcements and
+//!     the sync task `fetch_missing_repositories` then fetch them); `w` = worker results are delivered only
+//!     while their node has a connected session (what `Wire::worker_result` forwards), else consumed
 //! Ops (`n` peer, `r` repo, `v` refs variant ≥ 1, `k` index of the k-th `Io::Fetch` emitted):
 //!   `i<n>`            `Service::connected(n, Inbound)`
 //!   `o<n>`            `Service::connected(n, Outbound)`
@@ -20,7 +23,10 @@
 //!   `a<r>.<n>.<v>`    refs announcement of `n` for `r` (variant `v`), received from `n`
 //!   `r<k>s:<perm>`    worker result (success) of the k-th fetch: `Service::fetched(rid_k, nid_k, Ok)`;
 //!   `r<k>f:<perm>`    the same with an error result. A `k` that is not outstanding is skipped (`K`).
-//!   `w:<perm>`        61 minutes pass, `Service::wake()`, then `attempted` for every `Io::Connect`
+//!   `w:<perm>`        61 minutes pass, `Service::wake()`, then `attempted` for every `Io::Connect`;
+//!   `w:<perm>:<plan>` with flag `m`: `<plan>` = `r=n.n,r=n` the missing repositories and their connected seeds
+//!                     in the order `fetch_missing_repositories` visits them (computed by the real code)
+//!   `v<r>.<n>`        (flag `m`) inventory announcement of `n` listing `r`, received from `n`
 //! `<perm>` is the order in which `Sessions::shuffled()` will present the sessions to
 //! `dequeue_fetches` in this step (an opaque function of the RNG: its value is computed by the real
 //! code and passed to the model); `?` asks the harness to fill it in, a wrong value is `bad-case`.
@@ -56,9 +62,10 @@ use radicle::node::device::Device;
 use radicle::node::refs::Store as _;
 use radicle::node::{Address, Alias, ConnectOptions, Features, NodeId, UserAgent, DEFAULT_TIMEOUT, PROTOCOL_VERSION};
 use radicle::storage::refs::{RefsAt, SIGREFS_BRANCH};
+use radicle::storage::ReadStorage as _;
 use radicle::test::storage::MockStorage;
 use radicle_node::service::io::Io;
-use radicle_node::service::message::{AnnouncementMessage, Message, RefsAnnouncement};
+use radicle_node::service::message::{AnnouncementMessage, InventoryAnnouncement, Message, RefsAnnouncement};
 use radicle_node::service::policy::{Scope, SeedingPolicy};
 use radicle_node::service::session::{Session, State};
 use radicle_node::service::{self, Command, DisconnectReason, ServiceState as _};
@@ -81,7 +88,14 @@ struct Cfg {
     persist: Vec<usize>,
     have: Vec<usize>,
     seed: u64,
+    /// flag `m`: the repositories are NOT in storage (inventory announcements and the sync task fetch them)
+    missing: bool,
+    /// flag `w`: worker results are only delivered while their node has a connected session
+    wire: bool,
 }
+
+/// Sync plan of a wake: the missing repositories with their connected seeds, in visiting order.
+type Plan = Option<Vec<(usize, Vec<usize>)>>;
 
 type Perm = Option<Vec<usize>>;
 
@@ -96,7 +110,8 @@ enum Op {
     Ann(usize, usize, usize),
     /// `Ok(k)` = k-th fetch; `Err(j)` = j-th outstanding one (resolved when executed).
     Res(Result<usize, usize>, bool, Perm),
-    Wake(Perm),
+    Wake(Perm, Plan),
+    Inv(usize, usize),
 }
 
 fn dots(s: &str) -> Option<Vec<usize>> {
@@ -124,7 +139,11 @@ fn parse_perm(s: &str) -> Option<Perm> {
 
 fn parse_cfg(s: &str) -> Option<Cfg> {
     let f: Vec<&str> = s.split(',').collect();
-    if f.len() != 6 {
+    if f.len() != 6 && f.len() != 7 {
+        return None;
+    }
+    let flags = if f.len() == 7 && f[6] != "-" { f[6] } else { "" };
+    if flags.chars().any(|c| c != 'm' && c != 'w') {
         return None;
     }
     let cfg = Cfg {
@@ -134,6 +153,8 @@ fn parse_cfg(s: &str) -> Option<Cfg> {
         persist: dots(f[3])?,
         have: dots(f[4])?,
         seed: f[5].parse().ok()?,
+        missing: flags.contains('m'),
+        wire: flags.contains('w'),
     };
     if cfg.peers == 0 || cfg.peers > 9 || cfg.repos == 0 || cfg.repos > 9 || cfg.conc > 64 {
         return None;
@@ -153,10 +174,16 @@ fn parse_op(t: &str, cfg: &Cfg) -> Option<Op> {
         let n: usize = s.parse().ok()?;
         (n >= 1 && n <= cfg.repos).then_some(n)
     };
-    let (head, perm) = match t.split_once(':') {
-        Some((h, p)) => (h, Some(parse_perm(p)?)),
-        None => (t, None),
+    let mut parts = t.split(':');
+    let head = parts.next()?;
+    let perm = match parts.next() {
+        Some(p) => Some(parse_perm(p)?),
+        None => None,
     };
+    let plan_txt = parts.next();
+    if parts.next().is_some() || (plan_txt.is_some() && head != "w") {
+        return None;
+    }
     let c = head.chars().next()?;
     let rest = &head[c.len_utf8()..];
     match (c, perm) {
@@ -201,7 +228,26 @@ fn parse_op(t: &str, cfg: &Cfg) -> Option<Op> {
                 Some(Op::Res(Ok(k), ok, p))
             }
         }
-        ('w', Some(p)) if rest.is_empty() => Some(Op::Wake(p)),
+        ('w', Some(p)) if rest.is_empty() => {
+            let plan = match plan_txt {
+                None | Some("?") => None,
+                Some("-") => Some(vec![]),
+                Some(txt) => {
+                    let mut v = vec![];
+                    for g in txt.split(',') {
+                        let (r, ns) = g.split_once('=')?;
+                        let ns: Option<Vec<usize>> = ns.split('.').map(|n| peer(n)).collect();
+                        v.push((repo(r)?, ns?));
+                    }
+                    Some(v)
+                }
+            };
+            Some(Op::Wake(p, plan))
+        }
+        ('v', None) if cfg.missing => {
+            let (r, n) = rest.split_once('.')?;
+            Some(Op::Inv(repo(r)?, peer(n)?))
+        }
         _ => None,
     }
 }
@@ -235,6 +281,8 @@ struct World {
     /// Namespace whose `rad/sigrefs` the announcements talk about.
     ns: NodeId,
     persist: Vec<usize>,
+    /// The state of the service's own RNG (it is only ever cloned by the service, never advanced).
+    service_rng: fastrand::Rng,
     _rx: Vec<chan::Receiver<radicle::node::FetchResult>>,
 }
 
@@ -248,7 +296,7 @@ impl World {
             .collect();
         let ns = *Device::<MockSigner>::mock_from_seed([0xee; 32]).public_key();
         let rids: Vec<RepoId> = (1..=cfg.repos).map(|j| RepoId::from(oid(0x1d, j))).collect();
-        let storage = MockStorage::new(rids.iter().map(|r| (*r, doc())).collect());
+        let storage = MockStorage::new(if cfg.missing { vec![] } else { rids.iter().map(|r| (*r, doc())).collect() });
 
         let mut config = service::Config::test(Alias::from_str("alice").unwrap());
         // `maintain_connections` (dialling peers from the address book) is represented by the explicit
@@ -259,12 +307,16 @@ impl World {
             config.connect.insert((nids[*p - 1], addrs[*p - 1].clone()).into());
         }
         let start = LocalTime::from_secs(1_700_000_000);
+        let base_rng = fastrand::Rng::with_seed(cfg.seed);
+        // `Peer::config` draws one `u16` (the port) before handing the RNG to `Service::new`.
+        let mut service_rng = base_rng.clone();
+        service_rng.u16(..);
         let pc = peer::Config {
             config,
             local_time: start,
             policy: SeedingPolicy::default(),
             signer: Device::mock_from_seed([0xa1; 32]),
-            rng: fastrand::Rng::with_seed(cfg.seed),
+            rng: base_rng.clone(),
             tmp: tempfile::TempDir::new().expect("tempdir"),
         };
         let mut alice = Peer::config("alice", [192, 168, 7, 1], storage, pc).initialized();
@@ -299,7 +351,7 @@ impl World {
                     .expect("refs set");
             }
         }
-        let mut w = World { alice, signers, nids, addrs, rids, ns, persist: cfg.persist.clone(), _rx: vec![] };
+        let mut w = World { alice, signers, nids, addrs, rids, ns, persist: cfg.persist.clone(), service_rng, _rx: vec![] };
         w.drain(); // Io::Connect of the persistent peers → attempted
         w
     }
@@ -351,6 +403,29 @@ impl World {
         }
         let v: Vec<usize> = s.shuffled().map(|(k, _)| self.peer_ix(k)).collect();
         v
+    }
+
+    /// What `fetch_missing_repositories` will visit: the seeded repositories missing from storage, in
+    /// policy order, each with `self.seeds(rid).connected()`. `Command::Seeds` returns the same `Seeds` value
+    /// but has already shuffled it once (`partition`), so it is given a fresh clone of the service RNG again.
+    fn predict_plan(&mut self) -> Vec<(usize, Vec<usize>)> {
+        let mut plan = vec![];
+        let policies: Vec<_> = self.alice.policies().seed_policies().expect("policies").collect();
+        for p in policies {
+            if !p.is_allow() || self.alice.storage().contains(&p.rid).unwrap_or(true) {
+                continue;
+            }
+            let (tx, rx) = chan::bounded(1);
+            self.alice.command(Command::Seeds(p.rid, tx));
+            if let Ok(seeds) = rx.try_recv() {
+                let seeds = seeds.with(self.service_rng.clone());
+                let ns: Vec<usize> = seeds.connected().map(|s| self.peer_ix(&s.nid)).collect();
+                if !ns.is_empty() {
+                    plan.push((self.repo_ix(&p.rid), ns));
+                }
+            }
+        }
+        plan
     }
 
     fn session(&self, n: usize) -> Option<&Session> {
@@ -567,6 +642,10 @@ fn execute(input: &str) -> (Run, Outcome) {
                     skipped = true;
                     tags.insert("op-result-skipped".into());
                     (tok, Box::new(|_: &mut World| {}))
+                } else if cfg.wire && !world.session(fetches[k - 1].1).map(|s| s.is_connected()).unwrap_or(false) {
+                    // `Wire::worker_result` drops results of unknown / disconnecting peers
+                    tags.insert("op-result-dropped-by-wire".into());
+                    (tok, Box::new(|_: &mut World| {}))
                 } else {
                     let (r, n) = fetches[k - 1];
                     tags.insert(if ok { "op-result-ok" } else { "op-result-err" }.into());
@@ -581,14 +660,40 @@ fn execute(input: &str) -> (Run, Outcome) {
                     }))
                 }
             }
-            Op::Wake(p) => {
+            Op::Wake(p, pl) => {
                 let perm = world.predict_perm(None);
                 if !check_perm(&p, &perm) {
                     bad_case = true;
                 }
+                let plan = if cfg.missing { world.predict_plan() } else { vec![] };
+                if pl.as_ref().map(|g| *g != plan).unwrap_or(false) {
+                    bad_case = true;
+                }
                 tags.insert("op-wake".into());
-                (format!("w:{}", show_dots(&perm)), Box::new(|w: &mut World| {
+                let tok = if plan.is_empty() {
+                    format!("w:{}", show_dots(&perm))
+                } else {
+                    tags.insert("op-wake-sync-fetch".into());
+                    let groups: Vec<String> = plan.iter().map(|(r, ns)| format!("{r}={}", show_dots(ns))).collect();
+                    format!("w:{}:{}", show_dots(&perm), groups.join(","))
+                };
+                (tok, Box::new(|w: &mut World| {
                     w.alice.elapse(LocalDuration::from_mins(61));
+                }))
+            }
+            Op::Inv(r, n) => {
+                if matches!(world.session(n).map(|s| &s.state), Some(State::Attempted | State::Initial)) {
+                    tags.insert("message-from-connecting-peer".into());
+                }
+                tags.insert("op-inventory-announcement".into());
+                (format!("v{r}.{n}"), Box::new(move |w: &mut World| {
+                    let ann = InventoryAnnouncement {
+                        inventory: vec![w.rids[r - 1]].try_into().expect("bounded"),
+                        timestamp: Timestamp::from(*w.alice.clock()) + (step as u64 + 1),
+                    };
+                    let msg: Message = AnnouncementMessage::from(ann).signed(&w.signers[n - 1]).into();
+                    let nid = w.nids[n - 1];
+                    w.alice.receive(nid, msg);
                 }))
             }
         };
@@ -729,7 +834,7 @@ fn execute(input: &str) -> (Run, Outcome) {
         }
         if !emitted.is_empty() {
             tags.insert(match op {
-                Op::Cmd(..) | Op::Ann(..) => "fetch-started-directly",
+                Op::Cmd(..) | Op::Ann(..) | Op::Inv(..) => "fetch-started-directly",
                 _ => "fetch-started-from-queue",
             }.into());
         }
@@ -789,6 +894,9 @@ fn alphabet(cfg: &Cfg, run: &Run, max_peer: usize, max_repo: usize, rich: bool) 
         for r in 1..=nr {
             v.push((format!("c{r}.{n}"), n, r));
             v.push((format!("a{r}.{n}.1"), n, r));
+            if cfg.missing {
+                v.push((format!("v{r}.{n}"), n, r));
+            }
         }
     }
     for k in &run.pending {
@@ -838,7 +946,17 @@ impl Enum<'_> {
 }
 
 fn cfg_text(c: &Cfg) -> String {
-    format!("{},{},{},{},{},{}", c.conc, c.peers, c.repos, show_dots(&c.persist), show_dots(&c.have), c.seed)
+    let mut t = format!("{},{},{},{},{},{}", c.conc, c.peers, c.repos, show_dots(&c.persist), show_dots(&c.have), c.seed);
+    if c.missing || c.wire {
+        t.push(',');
+        if c.missing {
+            t.push('m');
+        }
+        if c.wire {
+            t.push('w');
+        }
+    }
+    t
 }
 
 fn enumerate(ctx: &mut Ctx, cfg: Cfg, depth: usize, rich: bool, budget: u64) -> (u64, bool) {
@@ -860,6 +978,8 @@ fn gen_random(rng: &mut Rng, long: bool) -> String {
         persist: if rng.chance(1, 3) { vec![rng.range(1, peers as u64) as usize] } else { vec![] },
         have: if rng.chance(1, 4) { vec![3] } else { vec![] },
         seed: rng.below(1 << 32),
+        missing: rng.chance(1, 3),
+        wire: rng.chance(1, 3),
     };
     let len = if long { rng.range(20, 60) } else { rng.range(6, 24) };
     let mut s = cfg_text(&cfg);
@@ -877,6 +997,7 @@ fn gen_random(rng: &mut Rng, long: bool) -> String {
         } else {
             match rng.below(20) {
                 0..=4 => format!("c{r}.{n}"),
+                5..=6 if cfg.missing => format!("v{r}.{n}"),
                 5..=8 => format!("a{r}.{n}.{}", *rng.pick(&[1, 1, 1, 2, 2, 3])),
                 9..=12 => format!("r*{}{}:?", rng.below(4), if rng.chance(1, 3) { 's' } else { 'f' }),
                 13..=14 => {
@@ -937,7 +1058,8 @@ fn main() {
     if !is_replay {
         let quick = ctx.quick();
         let t0 = std::time::Instant::now();
-        let base = |conc, peers, repos, persist: Vec<usize>| Cfg { conc, peers, repos, persist, have: vec![], seed: 1 };
+        let base = |conc, peers, repos, persist: Vec<usize>| Cfg { conc, peers, repos, persist, have: vec![], seed: 1, missing: false, wire: false };
+        let flagged = |conc, peers, repos, missing, wire| Cfg { conc, peers, repos, persist: vec![], have: vec![], seed: 1, missing, wire };
         // (config, depth quick, depth thorough, rich alphabet)
         let plans: Vec<(Cfg, usize, usize, bool)> = vec![
             (base(1, 2, 1, vec![]), 5, 7, false),
@@ -946,6 +1068,11 @@ fn main() {
             (base(1, 2, 1, vec![]), 4, 5, true),
             (base(1, 2, 1, vec![2]), 4, 5, false),
             (base(1, 3, 1, vec![]), 4, 6, false),
+            // repositories not in storage: inventory announcements and the sync task of `wake` fetch
+            (flagged(1, 2, 2, true, false), 4, 5, false),
+            // worker results only forwarded for connected peers (as `Wire::worker_result` does)
+            (flagged(1, 2, 1, false, true), 5, 6, false),
+            (flagged(2, 2, 2, true, true), 3, 5, false),
         ];
         for (cfg, dq, dt, rich) in plans {
             let d = if quick { dq } else { dt };
@@ -967,7 +1094,8 @@ fn main() {
         "corpus witnesses; exhaustive enumeration (DFS over event schedules, modulo renaming of non-persistent peers and of \
          repositories, not extending steps that neither changed the observed state nor emitted anything) for the configurations \
          listed in notes.exhaustive; one queue-capacity case (131 queued fetches); random schedules of 6-60 events over 2-3 peers, \
-         1-3 repos, fetch_concurrency 1-3, optional persistent peer and already-cached refs variant. The session shuffle order of \
+         1-3 repos, fetch_concurrency 1-3, optional persistent peer, already-cached refs variant, repositories missing from \
+         storage (inventory announcements, sync task) and Wire-filtered worker results. The session shuffle order of \
          every dequeue is computed by the real code and passed to the model. non-trivial = at least one Io::Fetch was emitted; \
          distinct by resolved case text",
         false,
